@@ -180,7 +180,7 @@ def gen_config(rng, system=None, tier='quick', allow_noniso=True, out_of_window=
             cfg['maxDtFrac'] = float(max(mn, rng.choice([0.07, 0.3, 1.0])))
     # ---------------------------------------------------------------- step cap
     if max_steps is None:
-        max_steps = 2500 if tier == 'quick' else 6000
+        max_steps = 1600 if tier == 'quick' else 6000
         if noniso and system == 'alzr':
             # every step (every RK4 stage) of a fast ramp rebuilds the interfacial-composition table (0.3-1 s)
             max_steps = (60 if cfg['iterator'] == 'euler' else 50) if tier == 'quick' else 400
@@ -232,6 +232,6 @@ def gen_dissolution_config(rng, system='nialcr', tier='quick'):
         cfg['segments'] = [t_age, t_ramp + t_hold]
     else:
         cfg['segments'] = [t_age + t_ramp + t_hold]
-    cfg['max_steps'] = 5000 if tier == 'quick' else 8000
+    cfg['max_steps'] = 3500 if tier == 'quick' else 8000
     cfg['dissolution'] = True
     return cfg
